@@ -293,3 +293,65 @@ def run_db_q(chk):
                detail="`%s %s` has Q = %d in its opcode but lists %s" % (e["name"], ", ".join(o["s"] for o in e["ops"]), q, " ".join(bad)),
                key="dbq|%s|%s" % (e["name"], head))
     chk.floor(R + ":forms", n, 100)
+
+
+def run_signature_rows(chk, A):
+    """exact-signature classes: the operand shapes stored in each row exist as one form of the mnemonic in the database"""
+    from . import a64db
+    R = "R-SIGNATURE-ROWS-DB-AGREE"
+    chk.rule(R, "a64 classes that compare operand signatures with constants stored in the row (ISimdVVx / VVVx / VVVVx): the shapes the row "
+                "stores (decoded through InstDB::kOpSignature) are the operand shapes of one form of the mnemonic in db/isa_aarch64.json")
+    T, dbf = A["db"]["tables"], A["db"]
+    f = chk.facts("asmjit/arm/a64assembler.cpp", enums=r"a64::InstDB::kOpSignature$")
+    en = f["enums"].get("asmjit::a64::InstDB::kOpSignature")
+    chk.need(en is not None, "enum a64::InstDB::kOpSignature not found")
+    sig = {v: n[4:] for n, v in en["enumerators"]}
+    SH = {"GpW": "W", "GpX": "X"}
+
+    def shape(v):
+        n = sig.get(v)
+        if n is None:
+            return None
+        return SH.get(n, n[1:] if n.startswith("V") else n)
+    db = a64db.load_db(chk)
+    by = collections.defaultdict(list)
+    for e in db:
+        if not a64db.is_sve(e):
+            by[e["name"]].append(e)
+    rows = T["asmjit::a64::InstDB::_inst_info_table"]["value"]
+    f2 = chk.facts("asmjit/arm/a64instdb.cpp", tables=r"asmjit::a64::InstDB::(_inst_name_string_table|_inst_name_index_table)$")
+    strtab = f2["tables"]["asmjit::a64::InstDB::_inst_name_string_table"]["value"]
+    names = [nametables.decode(v, strtab) for v in f2["tables"]["asmjit::a64::InstDB::_inst_name_index_table"]["value"]]
+    enc = {v: n for n, v in dbf["enums"]["asmjit::a64::InstDB::EncodingId"]["enumerators"]}
+
+    def oparr(e, k):
+        s = e["ops"][k]["s"]
+        m = re.match(r"^([WX])[a-z]\d?$|^([WX])ZR$", s)
+        if m:
+            return {m.group(1) or m.group(2)}
+        return op_arrangements(e, k)
+    n = 0
+    for tname, t in T.items():
+        data = t.get("value")
+        if not (isinstance(data, list) and data and isinstance(data[0], dict) and any(k.endswith("_signature") for k in data[0])):
+            continue
+        cls = "kEncodingI" + tname.split("::")[-1][1:]
+        for rid in range(1, len(rows)):
+            if enc.get(rows[rid]["_encoding"]) != cls or rows[rid]["_encoding_data_index"] >= len(data):
+                continue
+            d = data[rows[rid]["_encoding_data_index"]]
+            shp = [shape(d[k]) for k in sorted(d) if k.endswith("_signature")]
+            ok = False
+            seen = []
+            for e in by.get(names[rid], []):
+                if len(e["ops"]) != len(shp):
+                    continue
+                arr = [oparr(e, k) for k in range(len(shp))]
+                seen.append(" ".join("/".join(sorted(a)) if a else "?" for a in arr))
+                if all(a is not None and s in a for a, s in zip(arr, shp)):
+                    ok = True
+            n += 1
+            chk.ob(R, "%s|%s" % (names[rid], cls[9:]), ok and None not in shp, loc="asmjit/arm/a64instdb.cpp",
+                   detail="row `%s` stores the operand shapes %s; the database's forms of the mnemonic are: %s" % (names[rid], shp, "; ".join(seen) or "(none)"),
+                   key="sigrow|%s" % names[rid])
+    chk.floor(R + ":rows", n, 25)
